@@ -499,7 +499,9 @@ static void DecodeRES(Word Index) {
         DontPrint = True;
     }
     CodeLen = Size;
-    BookKeeping();
+    if (DontPrint) {
+        BookKeeping();
+    }
 }
 
 static void DecodeWORD(Word Index) {
